@@ -30,6 +30,9 @@ class Result:
         self.slot_assign = {}         # (rec, field) -> set(target names) assigned on feasible paths
         self.field_writes = set()     # (rec, field) written
         self.root_writes = set()      # (rec, field, root variable name) written
+        self.ret_exprs = set()        # (function name, canonical string of a feasible return expression)
+        self.local_assigns = set()    # (function name, local name, canonical rhs string) on feasible paths
+        self.store_exprs = set()      # (function name, lvalue string, rhs string) for member stores on feasible paths
         self.returns = set()          # ints or None (unknown)
         self.ret_sites = []           # (fn name, line, value)
         self.reached = set()          # (fn name, block id)
@@ -41,6 +44,9 @@ class Result:
             self.slot_assign.setdefault(k, set()).update(v)
         self.field_writes |= o.field_writes
         self.root_writes |= o.root_writes
+        self.ret_exprs |= o.ret_exprs
+        self.local_assigns |= o.local_assigns
+        self.store_exprs |= o.store_exprs
         self.reached |= o.reached
         self.truncated |= o.truncated
 
@@ -312,6 +318,10 @@ class PEval:
                     if '(*)' in lhs['t']:
                         tg = self.prog._fn_targets(f, N[n['kids'][1]])
                         res.slot_assign.setdefault((lhs.get('rec'), lhs['n']), set()).update(tg)
+                if lhs['k'] == 'DeclRefExpr':
+                    res.local_assigns.add((f.name, ls, f.s(n['kids'][1])))
+                elif lhs['k'] == 'MemberExpr':
+                    res.store_exprs.add((f.name, ls, f.s(n['kids'][1])))
                 if n['op'] == '=' and not any(x['k'] in ('DeclRefExpr', 'MemberExpr') and f.s(x) == ls for x in f.walk(n['kids'][1])):
                     v = self.val(f, n['kids'][1], env)
                     v = _trunc(v, lhs.get('t')) if v is not None else None
@@ -343,6 +353,8 @@ class PEval:
                 v = self.val(f, n['kids'][0], env) if n['kids'] else None
                 res.returns.add(v)
                 res.ret_sites.append((f.name, n.get('l'), v))
+                if n['kids']:
+                    res.ret_exprs.add((f.name, f.s(n['kids'][0])))
 
     def _call(self, f, c, env, res, depth):
         names = []
